@@ -290,6 +290,7 @@ func (c *vClient) drain() []wamp.Message {
 			if !ok {
 				return out
 			}
+			vAssert("router-sends-only-values-every-transport-carries", vMsgTransportable(m))
 			out = append(out, m)
 		default:
 			return out
@@ -377,4 +378,69 @@ func vDictEqual(a, b wamp.Dict) bool {
 		ok = vAnd(ok, v == w)
 	}
 	return ok
+}
+
+// vTransportable: v consists only of values every serializer carries as WAMP
+// data (what an in-process peer receives by reference, a network peer must be
+// able to receive through JSON, MessagePack or CBOR with the same meaning)
+func vTransportable(v any) bool {
+	switch t := v.(type) {
+	case nil, bool, string, wamp.URI, wamp.ID, int, int8, int16, int32, int64, uint, uint8, uint16, uint32, uint64, float32, float64, []byte:
+		return true
+	case []wamp.ID, []string, []wamp.URI, []int64:
+		return true
+	case storedEvent:
+		return vTransportable(t.Details) && vTransportable(t.Arguments) && vTransportable(t.ArgumentsKw)
+	case wamp.List:
+		for _, e := range t {
+			if !vTransportable(e) {
+				return false
+			}
+		}
+		return true
+	case []any:
+		for _, e := range t {
+			if !vTransportable(e) {
+				return false
+			}
+		}
+		return true
+	case wamp.Dict:
+		for _, e := range t {
+			if !vTransportable(e) {
+				return false
+			}
+		}
+		return true
+	case map[string]any:
+		for _, e := range t {
+			if !vTransportable(e) {
+				return false
+			}
+		}
+		return true
+	}
+	return false
+}
+
+func vMsgTransportable(m wamp.Message) bool {
+	switch t := m.(type) {
+	case *wamp.Error:
+		return vTransportable(t.Details) && vTransportable(t.Arguments) && vTransportable(t.ArgumentsKw)
+	case *wamp.Result:
+		return vTransportable(t.Details) && vTransportable(t.Arguments) && vTransportable(t.ArgumentsKw)
+	case *wamp.Event:
+		return vTransportable(t.Details) && vTransportable(t.Arguments) && vTransportable(t.ArgumentsKw)
+	case *wamp.Invocation:
+		return vTransportable(t.Details) && vTransportable(t.Arguments) && vTransportable(t.ArgumentsKw)
+	case *wamp.Welcome:
+		return vTransportable(t.Details)
+	case *wamp.Abort:
+		return vTransportable(t.Details)
+	case *wamp.Goodbye:
+		return vTransportable(t.Details)
+	case *wamp.Interrupt:
+		return vTransportable(t.Options)
+	}
+	return true
 }
